@@ -119,7 +119,17 @@ class Real:
             name = type(e).__name__
             mod = type(e).__module__
             if name == "Except" and mod.startswith("mo_logs"):
-                return ("err", "Except", -1, str(e)[:300])
+                # innermost cause: which parse action raised what
+                chain = []
+                c = e
+                for _ in range(8):
+                    if c is None:
+                        break
+                    chain.append(str(c).split("\n")[0][:160])
+                    c = getattr(c, "cause", None)
+                    if isinstance(c, (list, tuple)):
+                        c = c[0] if c else None
+                return ("err", "Except", -1, " <- ".join(chain)[:700])
             return ("err", "other:" + name, -1, str(e)[:300])
         finally:
             signal.setitimer(signal.ITIMER_REAL, 0)
@@ -137,6 +147,33 @@ class Real:
             return ("ok", self.m.format(tree, **kw))
         except BaseException as e:  # noqa
             return ("err", type(e).__name__, str(e)[:300])
+
+
+def _pw(item):
+    sql, dialect, kw = item
+    r = real().parse(sql, dialect, **kw)
+    if r.get("$err") == "Timeout":
+        # a loaded machine is not a property violation: only an input that still does not finish
+        # with a generous budget counts
+        r = real().parse(sql, dialect, timeout=180, **kw)
+    return cdump(r)
+
+
+_pool = None
+
+
+def parse_many(items, procs=None):
+    """[(sql, dialect, kwargs)] -> [canonical outcome dump], evaluated by the real implementation in
+    forked worker processes (each imports /repo's working tree itself)"""
+    global _pool
+    items = list(items)
+    if len(items) < 64:
+        return [_pw(i) for i in items]
+    import multiprocessing as mp
+    if _pool is None:
+        n = procs or int(os.environ.get("VERIF_PROCS", "0") or 0) or max(2, min(12, (os.cpu_count() or 4) - 2))
+        _pool = mp.get_context("fork").Pool(n)
+    return _pool.map(_pw, items, chunksize=max(1, min(200, len(items) // 64)))
 
 
 def real():
@@ -350,6 +387,7 @@ class Report:
         self.known_hit = {}
         self.violations = []  # (key, replay dict)
         self.all_findings = {}
+        self.examples = {}
         self.tie_breaks = []  # dicts describing a broken proof obligation / correspondence
         self.coverage = {"samples": []}
         self.assumptions = []
@@ -378,6 +416,9 @@ class Report:
         A known-findings entry with a "covers" list only covers the listed sub-keys: anything else
         under the same rule is a new violation (reported as key/sub)."""
         self.all_findings.setdefault(key, set()).add(sub if sub is not None else "")
+        ek = key if sub is None else "%s/%s" % (key, sub)
+        if ek not in self.examples and len(self.examples) < 400:
+            self.examples[ek] = what[:300]
         if key in self.known:
             cov = self.known[key].get("covers")
             if cov is None or sub is None or sub in cov:
@@ -423,6 +464,7 @@ class Report:
         cov["known_findings_hit"] = sorted(self.known_hit)
         cov["tie_breaks"] = self.tie_breaks
         cov["findings_observed"] = {k: sorted(v) for k, v in sorted(self.all_findings.items())}
+        cov["finding_examples"] = self.examples
         if obligations:
             cov.update(obligations)
         if extra_cov:
